@@ -165,17 +165,24 @@ Definition model_query (srcs : list (list rs)) : cres :=
   | _ => chain srcs []
   end.
 
-(* Merged output against the model's: timestamps and hints must be equal; the value must be the value
-   some source holds at that timestamp (when two sources hold different values at one timestamp,
-   which of them the merge returns depends on container/heap's tie-breaking, which is not modelled;
-   the hints do not depend on it). *)
-Definition value_from (srcs : list (list rs)) (o : rs) : bool :=
-  existsb (fun s => existsb (fun x => (r_t x =? r_t o) && value_eqb (r_h x) (r_h o)) s) srcs.
+(* Merged output against the model's.  When several inputs hold the same timestamp, which of them the
+   merge returns depends on container/heap's tie-breaking, which is not modelled (the model takes
+   the first minimal element).  So: timestamps must be equal; the observed value must be the value x
+   some input holds at that timestamp; and the observed hint must be the one the model gives at
+   this position, adapted to x: Gauge if x is a gauge sample (the merge never touches it), and if the
+   model returned a gauge sample where the implementation returned a counter sample (only possible
+   at such a tie, where the iterator has just changed): unknown. *)
+Definition hint_for (m x : rs) : hint :=
+  if hint_eqb (r_hint x) HGauge then HGauge
+  else if hint_eqb (r_hint m) HGauge then HUnknown else r_hint m.
+Definition obs_ok (srcs : list (list rs)) (m o : rs) : bool :=
+  (r_t m =? r_t o)
+  && existsb (fun s => existsb (fun x => (r_t x =? r_t o) && value_eqb (r_h x) (r_h o)
+                                         && hint_eqb (r_hint o) (hint_for m x)) s) srcs.
 Fixpoint rsl_match (srcs : list (list rs)) (a b : list rs) : bool :=
   match a, b with
   | [], [] => true
-  | m :: a', o :: b' =>
-      (r_t m =? r_t o) && hint_eqb (r_hint m) (r_hint o) && value_from srcs o && rsl_match srcs a' b'
+  | m :: a', o :: b' => obs_ok srcs m o && rsl_match srcs a' b'
   | _, _ => false
   end.
 
